@@ -249,10 +249,10 @@ def obligations(tier):
         assumes=[TM + "template 6: sender of AL bytes, first and last byte symbolic, everything else concrete"],
         claim="template 6 (sender length limit): a sender of 1000 bytes is refused with D for every recipient, 999 bytes are accepted",
         expect_witnesses=lambda p: ["exit", "bad_sender"] + (["accepted_K"] if p["AL"] < 1000 else []), **QMTP))
-    # Hop counter of blast() against the stored message (DESIGN C07 Bounds (i)).  Not in the default plan: on the current tree it
-    # reports that a dot-stuffed header line (".Received: ..." on the wire, stored as "Received: ...") is not counted - see the
-    # final report of the C07 work; enable with C07_BLAST_HOPS=1 once that is fixed or recorded in known-findings.txt.
-    if os.environ.get("C07_BLAST_HOPS"):
+    # Hop counter of blast() against the stored message (DESIGN C07 Bounds (i)).  On the original tree this reported that a
+    # dot-stuffed header line (".Received: ..." on the wire, stored as "Received: ...") was not counted; repaired in /repo by the
+    # "fix: qmail-smtpd: count Received/Delivered-To fields on the decoded header line" commit (known-findings.txt).
+    if True:
         obls.append(Obl("blast_hops", "blast_hops.c",
             progs=[Prog("qmail-smtpd.c", nomain=True)], lib=["ideal_substdio.c"], sysrename=["_exit", "time"],
             grid=[{"N": n} for n in ([13, 14] if q else [13, 14, 16])],
